@@ -163,6 +163,9 @@ Definition toy_suite : clsuite :=
 (* a second harness suite whose ln is not 2 * SECPARAM (struct Toy2) *)
 Definition toy2_suite : clsuite :=
   {| SECPARAM := 192; QSEC := 19; ln := 448; lm := 256; lin := 256; le := 258; ls := 960 |}.
+(* a third harness suite whose le is a multiple of 8 (struct Toy3) *)
+Definition toy3_suite : clsuite :=
+  {| SECPARAM := 192; QSEC := 19; ln := 384; lm := 256; lin := 256; le := 264; ls := 896 |}.
 (* a very small harness suite (struct Micro): whole flows are re-evaluated inside Coq on the logged draws *)
 Definition micro_suite : clsuite :=
   {| SECPARAM := 16; QSEC := 4; ln := 40; lm := 8; lin := 8; le := 10; ls := 56 |}.
